@@ -11,5 +11,6 @@ import sys; sys.path.insert(0, '.')
 from vlib import common
 common.build_driver()
 common.build_harness()
+common.build_harness('checked')
 print("setup ok")
 PY
